@@ -6,8 +6,8 @@
              pydrex.io.parse_config (Model_config.v), V = v_fixed is the code as committed;
              the other variants re-enable one recorded defect each (see *_refuted below). *)
 From Coq Require Import Floats ZArith String List Bool.
-From PV.gen Require Import Gen_tables_params.
-From PV Require Import Model_config Proofs_config Model_config_session Proofs_config_session.
+From PV.gen Require Import Gen_tables_params Gen_io_config.
+From PV Require Import Model_config Proofs_config Model_pyconfig Inst_config Model_config_session Proofs_config_session.
 Import ListNotations.
 Open Scope string_scope.
 
@@ -357,3 +357,39 @@ Example C19_session_example :
      | _, _ => False
      end).
 Proof. exact session_example. Qed.
+
+(* ---- the parser's decision logic as regenerated from the source (tie T: gen/Gen_io_config.v) ------------- *)
+(* translator/specs_ioconfig.py reads _parse_phase, _parse_config_params, _parse_config_input_common and
+   _parse_output_options from the current source with Python's `ast` and writes them statement by statement over
+   the Python-subset semantics of Model_pyconfig.v; the generated functions ARE the model functions the theorems
+   above are about, wherever the model is defined (`defined r` = r is not `CErr Unmodelled`). *)
+
+Theorem C19_generated_parse_phase : forall v,
+  defined (parse_phase v_fixed v) -> gen__parse_phase v = parse_phase v_fixed v.
+Proof. exact inst_parse_phase. Qed.
+
+Theorem C19_generated_parse_config_params : forall toml,
+  (forall t a, get "parameters" toml <> Some (VOpaque t a)) -> defined (parse_params v_fixed toml) ->
+  gen__parse_config_params (VTable toml) = cmap VTable (parse_params v_fixed toml).
+Proof. exact inst_parse_config_params. Qed.
+
+Theorem C19_generated_parse_config_input_common : forall toml path,
+  (forall i, get "input" toml = Some (VTable i) ->
+     not_enum_value (getd "timestep" i (VFloat nan)) /\ not_enum_value (getd "strain_final" i (VFloat infinity))) ->
+  defined (parse_input_common v_fixed toml) ->
+  gen__parse_config_input_common (VTable toml) path = cmap VTable (parse_input_common v_fixed toml).
+Proof. exact inst_parse_config_input_common. Qed.
+
+Theorem C19_generated_parse_output_options : forall o level assemblage,
+  Forall is_phase assemblage ->
+  defined (output_options v_fixed o level assemblage) ->
+  gen__parse_output_options (VTable o) (VStr level) (VTuple assemblage) = cmap VTable (output_options v_fixed o level assemblage).
+Proof. exact inst_parse_output_options. Qed.
+
+(* so the invariants are invariants of the code as it is on this run: whatever _parse_config_params returns has
+   equal-length phase lists, fractions summing to one in binary64, enumeration-typed phases and fabric *)
+Theorem C19_generated_params_invariants : forall toml p',
+  (forall t a, get "parameters" toml <> Some (VOpaque t a)) ->
+  parse_params v_fixed toml = COk p' ->
+  gen__parse_config_params (VTable toml) = COk (VTable p') /\ params_invariant p'.
+Proof. exact generated_params_invariants. Qed.
